@@ -253,7 +253,7 @@ class Norm:
         if key in Norm._ac_cache:
             return Norm._ac_cache[key]
         r = t
-        bs = eng.by_path.get(t[1])
+        bs = eng.by_path.get(t[1]) or eng.by_path.get(getattr(eng, "ac_def", {}).get(t[1], ""))
         if bs and bs[0]["kind"].startswith("AssocConst"):
             import terms
             try:
